@@ -1177,9 +1177,28 @@ def once(ctx):
             return s
 
         def edge(blk, si, s):
-            if s[0] or s[1] or not (blk.term and blk.term.get('cond') is not None and len(blk.succ) == 2):
+            if s[0] or s[1] or not (blk.term and blk.term.get('cond') is not None):
                 return s
-            if blk.term.get('cls') in ('SwitchStmt', 'MethodDispatch'):
+            if blk.term.get('cls') == 'SwitchStmt':
+                # `switch (X->index)`: index == v on the edge of `case v` (when no other label shares the target), index != every
+                # case value on the `default` edge.  A fall-through from a neighbouring arm is another CFG edge and joins as such.
+                c = blk.term['cond']
+                cases = blk.term.get('cases') or []
+                if len(cases) != len(blk.succ) or si >= len(cases) or not (last_member(c) in INDEX and
+                                                                          strip(h.member_base(c) or {}).get('k') == 'var'):
+                    return s
+                same = [cv for k_, cv in enumerate(cases) if blk.succ[k_] == blk.succ[si]]
+                if len(same) != 1:
+                    return s
+                me = cases[si]
+                if isinstance(me, int):
+                    at = [('==', canon(c), str(me), None)]
+                elif me == 'default':
+                    at = [('!=', canon(c), str(cv), None) for cv in cases if isinstance(cv, int)]
+                else:
+                    return s
+                return (True, s[1]) if atoms_imply(at, op, canon(c), rc) else s
+            if len(blk.succ) != 2 or blk.term.get('cls') == 'MethodDispatch':
                 return s
             for (o_, lc, r_, l, r) in norm_cond(blk.term['cond'], si == 0):
                 if o_ != 'const' and last_member(l) in INDEX and strip(h.member_base(l) or {}).get('k') == 'var' \
